@@ -29,12 +29,32 @@ var curated = map[string]map[string]rng2{
 	"StorageRouting":        {"InflowBias": {0, 0}, "RoutingConstant": {10000, 200000}, "RoutingPower": {0.5, 1}, "area": {0, 1000}, "deadStorage": {0, 1000}, "DeltaT": {86400, 86400}},
 	"StorageDissolvedDecay": {"doStorageDecay": {1, 1}, "annualReturnInterval": {1, 5}, "bankFullFlow": {1, 100}, "medianFloodResidenceTime": {1, 10}, "DeltaT": {86400, 86400}},
 	"ClimateVariables":      {"elevation": {0, 3000}},
+	"InstreamDissolvedNutrientDecay": {"linkHeight": {1, 5}, "linkWidth": {5, 30}, "linkLength": {500, 5000}, "uptakeVelocity": {0.01, 1}, "pointSourceLoad": {0, 100}, "durationInSeconds": {86400, 86400}},
 	"Sacramento":            {"uztwm": {10, 125}, "uzfwm": {5, 75}, "lztwm": {10, 300}, "lzfsm": {5, 300}, "lzfpm": {5, 600}, "uh1": {0.5, 0.6}, "uh2": {0.2, 0.25}, "uh3": {0.1, 0.1}, "uh4": {0.03, 0.03}, "uh5": {0.02, 0.02}},
 	"Simhyd":                {"baseflowCoefficient": {0.05, 0.5}, "imperviousThreshold": {0, 3}, "infiltrationCoefficient": {50, 300}, "infiltrationShape": {0.5, 5}, "interflowCoefficient": {0.01, 0.5}, "perviousFraction": {0.5, 1}, "rainfallInterceptionStoreCapacity": {0.5, 5}, "rechargeCoefficient": {0.05, 0.8}, "soilMoistureStoreCapacity": {50, 400}},
 	"Surm":                  {"bfac": {0.05, 0.5}, "coeff": {50, 300}, "dseep": {0, 0.1}, "fcFrac": {0.3, 0.8}, "fimp": {0, 0.3}, "rfac": {0.05, 0.8}, "smax": {50, 400}, "sq": {0.5, 5}, "thres": {0, 3}},
 	"DateGenerator":         {"startDate": {1, 28}, "startMonth": {1, 12}, "startYear": {1900, 2100}},
 	"InstreamFineSediment":  {"bankFullFlow": {5, 50}, "linkWidth": {5, 30}, "linkLength": {500, 5000}, "linkSlope": {0.001, 0.02}, "bankHeight": {1, 5}, "propBankHeightForFineDep": {0.1, 0.9}, "sedBulkDensity": {1, 2}, "manningsN": {0.02, 0.08}, "fineSedSettVelocity": {1e-6, 1e-4}, "fineSedSettVelocityFlood": {1e-6, 1e-4}, "fineSedReMobVelocity": {1e-7, 1e-5}, "floodPlainArea": {1e4, 1e6}},
 	"StorageParticulateTrapping": {"reservoirCapacity": {1e5, 1e7}, "reservoirLength": {100, 5000}, "subtractor": {100, 112}, "multiplier": {0.5, 1}, "lengthDischargeFactor": {1, 4}, "lengthDischargePower": {0.1, 0.5}, "DeltaT": {86400, 86400}},
+}
+
+// switches: parameter values that select a different branch of a kernel; drawn with probability 1/3 each
+var switches = map[string]map[string][]float64{
+	"InstreamFineSediment":                {"bankFullFlow": {0}},
+	"StorageDissolvedDecay":               {"doStorageDecay": {0, 1}, "medianFloodResidenceTime": {0}},
+	"InstreamDissolvedNutrientDecay":      {"doDecay": {0, 1}},
+	"SednetParticulateNutrientGeneration": {"Do_P_CREAMS_Enrichment": {0, 1}},
+	"ApplyScalingFactor":                  {"scale": {0}},
+	"DeliveryRatio":                       {"fraction": {0}},
+	"DepthToRate":                         {"area": {0}},
+	"PassLoadIfFlow":                      {"scalingFactor": {0}},
+	"FixedConcentration":                  {"concentration": {0}},
+	"EmcDwc":                              {"EMC": {0}, "DWC": {0}},
+	"ConstituentDecay":                    {"halfLife": {0}},
+	"StorageRouting":                      {"InflowBias": {0.2, 0.4}, "RoutingPower": {1, 0.7}},
+	"Muskingum":                           {"X": {0}},
+	"DynamicSednetGully":                  {"longtermRunoffFactor": {0}, "dailyRunoffPowerFactor": {0}},
+	"Surm":                                {"smax": {3, 8}},
 }
 
 var intParams = map[string]bool{"DateGenerator.startDate": true, "DateGenerator.startMonth": true, "DateGenerator.startYear": true,
@@ -170,6 +190,9 @@ func genCase(r *rand.Rand, name string, nSets, nCells, nBlocks, T int) *modelCas
 				pv[s] = []float64{v}
 			default:
 				v := uni(r, rg.lo, rg.hi)
+				if sw, ok := switches[name][p.Name]; ok && r.Intn(3) == 0 {
+					v = sw[r.Intn(len(sw))]
+				}
 				if intParams[name+"."+p.Name] {
 					v = math.Floor(v)
 				}
@@ -408,6 +431,7 @@ type runResult struct {
 	NS       int
 	ParamsAfter, InputsAfter []float64
 	Intact   bool
+	ArgsChanged string // non-empty: Run altered its arguments beyond the permitted rows (detected by shapes / re-run)
 }
 
 const slackFill = -777.25
@@ -471,6 +495,48 @@ func (mc *modelCase) runVector(backend string, oc, ot int, m sim.TimeSteppingMod
 	})
 	res = &runResult{Out: append([]float64{}, ob...), OC: oc, NO: no, OT: ot, States: append([]float64{}, sb...), NS: ns,
 		ParamsAfter: append([]float64{}, pb...), InputsAfter: append([]float64{}, ib...), Intact: a.intact()}
+	if panicMsg != "" {
+		return
+	}
+	// Run must not modify its arguments -- that includes the arrays' own shapes (Shape() hands out the
+	// array's internal slice) -- so a second Run on the SAME array objects, with states and outputs put
+	// back, must reproduce the first one bit for bit.
+	shapesOK := eqInts(pArr.Shape(), []int{np, mc.NSets}) && eqInts(sArr.Shape(), []int{mc.NCells, ns}) &&
+		eqInts(iArr.Shape(), []int{mc.NBlocks, ni, mc.T}) && eqInts(oArr.Shape(), []int{oc, no, ot})
+	if !shapesOK {
+		res.ArgsChanged = fmt.Sprintf("shapes after Run: params %v states %v inputs %v outputs %v", pArr.Shape(), sArr.Shape(), iArr.Shape(), oArr.Shape())
+		return
+	}
+	for c := 0; c < mc.NCells; c++ {
+		copy(sb[c*ns:(c+1)*ns], mc.States[c])
+	}
+	for c := 0; c < oc; c++ {
+		for k := 0; k < no; k++ {
+			for t := 0; t < ot; t++ {
+				if c >= mc.NCells || t >= mc.T {
+					ob[(c*no+k)*ot+t] = slackFill
+				} else {
+					ob[(c*no+k)*ot+t] = 0
+				}
+			}
+		}
+	}
+	if pm2 := protect(func() { m.Run(iArr, sArr, oArr) }); pm2 != "" {
+		res.ArgsChanged = "second Run on the same arrays panicked: " + pm2
+		return
+	}
+	for i := range ob {
+		if !bitsEq(ob[i], res.Out[i]) {
+			res.ArgsChanged = fmt.Sprintf("a second Run on the same (restored) arrays gives outputs[%d] = %v instead of %v", i, ob[i], res.Out[i])
+			return
+		}
+	}
+	for i := range sb {
+		if !bitsEq(sb[i], res.States[i]) {
+			res.ArgsChanged = fmt.Sprintf("a second Run on the same (restored) arrays gives final state[%d] = %v instead of %v", i, sb[i], res.States[i])
+			return
+		}
+	}
 	return
 }
 
